@@ -248,6 +248,10 @@ func (w *World) genCtx() {
 			if sameKey && i > 0 {
 				sp.Key = cs.Singles[0].Key
 			}
+			if perm[i] == "user" && r.P(p.PLegacy) { // a legacy user (with its secondary key) can be one part of a multi-kind context
+				sec := r.Pick([]string{"sec", "", "s.2"})
+				sp.Secondary = &sec
+			}
 			cs.Singles = append(cs.Singles, sp)
 		}
 		w.ctx = cs
@@ -260,6 +264,9 @@ func (w *World) genCtx() {
 		if kind == "user" && r.P(p.PLegacy) {
 			sec := r.Pick([]string{"sec", "", "s.2"})
 			sp.Secondary = &sec
+			if r.P(0.15) {
+				sp.Key = "" // only the legacy user schema admits an empty key: the context is valid and HAS the kind
+			}
 		}
 		w.ctx = CtxSpec{Singles: []SingleSpec{sp}}
 	}
